@@ -312,7 +312,7 @@ Qed.
 Definition ms1 (c : ctr) : mschema := {| ms_args := [{| a_name := 1; a_ctr := c; a_opt := false |}]; ms_resp := None |}.
 
 Example C02_args_nonvacuous :
-  recv_call (ms1 (CList (CInt (Some 1024)) (Some 2) 0)) [slice (OList [OInt 5; OInt (2 ^ 40)])] [] =
+  recv_call (ms1 (CList (CInt (Some 1024)) (Some 2) 0)) [slice [] (OList [OInt 5; OInt (2 ^ 40)])] [] =
   CInvoke [OList [OInt 5; OInt (2 ^ 40)]] [].
 Proof. vm_compute. reflexivity. Qed.
 
@@ -330,7 +330,7 @@ Theorem C02_result_refuted :
   (exists c w v, recv_answer (Some c) w = Callback v /\ checkObject c v = false /\
                  c = CTuple [CInt (Some 1024); CInt (Some 1024)] /\ w = WOpen OtTuple [WInt 129 7 7]) /\
   (exists c w v, recv_answer (Some c) w = Callback v /\ checkObject c v = false /\
-                 c = CText (Some 3) 0 /\ w = slice (OText [116; 111; 111; 108; 111; 110; 103])) /\
+                 c = CText (Some 3) 0 /\ w = slice [] (OText [116; 111; 111; 108; 111; 110; 103])) /\
   (exists c w v, recv_answer (Some c) w = Callback v /\ checkObject c v = false /\
                  c = CInt (Some (-1)) /\ w = WInt 129 (2 ^ 40) (2 ^ 40)) /\
   (exists c w v, recv_answer (Some c) w = Callback v /\ checkObject c v = false /\
@@ -338,7 +338,7 @@ Theorem C02_result_refuted :
 Proof.
   split; [|split; [|split]].
   - exists (CTuple [CInt (Some 1024); CInt (Some 1024)]), (WOpen OtTuple [WInt 129 7 7]), (OTuple [OInt 7]). vm_compute. auto.
-  - exists (CText (Some 3) 0), (slice (OText [116; 111; 111; 108; 111; 110; 103])), (OText [116; 111; 111; 108; 111; 110; 103]).
+  - exists (CText (Some 3) 0), (slice [] (OText [116; 111; 111; 108; 111; 110; 103])), (OText [116; 111; 111; 108; 111; 110; 103]).
     vm_compute. auto.
   - exists (CInt (Some (-1))), (WInt 129 (2 ^ 40) (2 ^ 40)), (OInt (2 ^ 40)). vm_compute. auto.
   - exists (CBool None), (WOpen OtBool []), ONone. vm_compute. auto.
@@ -353,21 +353,21 @@ Proof. exists (ms1 (CText None 0)), [WInt 129 5 5]. vm_compute. auto. Qed.
 Definition d7a_ctr := CChoice [CList (CInt (Some 1024)) None 0; CTuple [CInt (Some 1024); CInt (Some 1024)]].
 
 Theorem C12_refuted_choice :        (* D7a *)
-  checkObject d7a_ctr (OList [OInt 1; OInt 2]) = true /\ recvw (Some d7a_ctr) (slice (OList [OInt 1; OInt 2])) = RAbort.
+  checkObject d7a_ctr (OList [OInt 1; OInt 2]) = true /\ recvw (Some d7a_ctr) (slice [] (OList [OInt 1; OInt 2])) = RAbort.
 Proof. vm_compute. auto. Qed.
 
 Theorem C12_refuted_anystring :     (* schema.AnyStringConstraint with a text *)
   let c := CChoice [CBytes None 0; CText None 0] in
-  checkObject c (OText [97]) = true /\ recvw (Some c) (slice (OText [97])) = RAbort.
+  checkObject c (OText [97]) = true /\ recvw (Some c) (slice [] (OText [97])) = RAbort.
 Proof. vm_compute. auto. Qed.
 
 Theorem C12_refuted_optional :
   let c := CList (COpt (CInt (Some 1024))) None 0 in
-  checkObject c (OList [OList [OInt 1]]) = true /\ recvw (Some c) (slice (OList [OList [OInt 1]])) = RAbort.
+  checkObject c (OList [OList [OInt 1]]) = true /\ recvw (Some c) (slice [] (OList [OList [OInt 1]])) = RAbort.
 Proof. vm_compute. auto. Qed.
 
 Theorem C12_refuted_any_huge_int :
-  checkObject CAny (OInt (2 ^ 8001)) = true /\ recvw (Some CAny) (slice (OInt (2 ^ 8001))) = RViol.
+  checkObject CAny (OInt (2 ^ 8001)) = true /\ recvw (Some CAny) (slice [] (OInt (2 ^ 8001))) = RViol.
 Proof. vm_compute. auto. Qed.
 
 (* ------------------------------------------------------------------ C12: sender-accepted implies receiver-accepted *)
@@ -431,20 +431,6 @@ Qed.
 Lemma of_tv_ok t o : t = TOk -> of_tv t o = RDeliver o.
 Proof. intros ->. reflexivity. Qed.
 
-Lemma slice_int z : slice (OInt z) = WInt (fst (int_token z)) (snd (int_token z)) z.
-Proof. cbn [slice]. destruct (int_token z). reflexivity. Qed.
-
-(* a container child receiving the slices of l, when every slot is open and its element is delivered *)
-Lemma kids_deliver ch (slotc : nat -> option ctr) l : forall i,
-  (forall j x, nth_error l j = Some x ->
-     child_slot ch (i + j) = Some (slotc (i + j)%nat) /\ recvw (slotc (i + j)%nat) (slice x) = RDeliver x) ->
-  kids_with recvw ch (map slice l) i = KOk l.
-Proof.
-  induction l as [|x l IH]; intros i H; [reflexivity|].
-  cbn [map kids_with]. destruct (H O x eq_refl) as [A1 A2]. rewrite Nat.add_0_r in A1, A2. rewrite A1, A2.
-  rewrite (IH (S i)); [reflexivity|]. intros j y Hy. specialize (H (S j) y Hy). rewrite Nat.add_succ_r in H. exact H.
-Qed.
-
 Lemma nth_error_lt {A} (l : list A) j x : nth_error l j = Some x -> (j < List.length l)%nat.
 Proof. intros H. apply nth_error_Some. congruence. Qed.
 
@@ -459,11 +445,18 @@ Proof.
   destruct j; cbn in Ec, El; [congruence|]. eapply IH; eassumption.
 Qed.
 
+Lemma Forall2_nth {A B} (R : A -> B -> Prop) : forall l ws j x w,
+  Forall2 R l ws -> nth_error l j = Some x -> nth_error ws j = Some w -> R x w.
+Proof.
+  intros l ws j x w F. revert j. induction F as [|a b l ws Hab F IH]; intros j Hx Hw; [destruct j; discriminate|].
+  destruct j; cbn in Hx, Hw; [inversion Hx; inversion Hw; subst; assumption|eapply IH; eassumption].
+Qed.
+
+Lemma Forall2_length {A B} (R : A -> B -> Prop) l ws : Forall2 R l ws -> List.length l = List.length ws.
+Proof. induction 1; cbn; congruence. Qed.
+
 Lemma over_ge_false mx n len : max_in mx len -> n < len -> over_max SGe mx n = false.
 Proof. destruct mx as [m|]; cbn; [|reflexivity]. intros. destruct (Z.geb_spec n m); [lia|reflexivity]. Qed.
-
-Lemma map_interleave {A B} (f : A -> B) : forall a b, interleave (map f a) (map f b) = map f (interleave a b).
-Proof. induction a as [|x a IH]; intros [|y b]; cbn; try reflexivity. rewrite IH. reflexivity. Qed.
 
 Lemma nth_interleave {A} : forall (ks vs : list A) j x, nth_error (interleave ks vs) j = Some x ->
   (Nat.div2 j < List.length ks)%nat /\
@@ -478,44 +471,21 @@ Proof.
     change (Nat.even (S (S j))) with (Nat.even j). cbn [nth_error]. exact A2.
 Qed.
 
+Lemma interleave_length {A B} : forall (a1 b1 : list A) (a2 b2 : list B),
+  List.length a1 = List.length a2 -> List.length b1 = List.length b2 ->
+  List.length (interleave a1 b1) = List.length (interleave a2 b2).
+Proof.
+  induction a1 as [|x a1 IH]; intros b1 [|y a2] b2 H1 H2; try discriminate; [reflexivity|].
+  destruct b1 as [|u b1], b2 as [|v b2]; try discriminate; [reflexivity|]. cbn. f_equal. f_equal.
+  apply IH; [cbn in H1; lia|cbn in H2; lia].
+Qed.
+
 Lemma evens_odds_interleave {A} : forall (ks vs : list A), List.length ks = List.length vs ->
   evens (interleave ks vs) = ks /\ odds (interleave ks vs) = vs.
 Proof.
   induction ks as [|k ks IH]; intros [|v vs] H; try discriminate; cbn; [split; reflexivity|].
-  destruct (IH vs ltac:(cbn in H; lia)) as [-> ->]. split; reflexivity.
+  destruct (IH vs ltac:(cbn in H; lia)) as [E1 E2]. rewrite E1, E2. split; reflexivity.
 Qed.
-
-Lemma recvw_free : forall o, owf o = true -> recvw None (slice o) = RDeliver o.
-Proof.
-  induction o using obj_ind'; intros W; try discriminate W; try reflexivity; try (destruct b; reflexivity).
-  - rewrite slice_int. reflexivity.
-  - cbn [slice recvw slot_open slot_opentype child_of free_child negb]. cbn [owf] in W.
-    rewrite (kids_deliver _ (fun _ => None)); [reflexivity|]. intros j x Hx. split; [reflexivity|].
-    rewrite Forall_forall in H. apply H; [eapply nth_error_In; eassumption|eapply forallb_nth; eassumption].
-  - cbn [slice recvw slot_open slot_opentype child_of free_child negb]. cbn [owf] in W.
-    rewrite (kids_deliver _ (fun _ => None)); [reflexivity|]. intros j x Hx. split; [reflexivity|].
-    rewrite Forall_forall in H. apply H; [eapply nth_error_In; eassumption|eapply forallb_nth; eassumption].
-  - cbn [slice recvw slot_open slot_opentype child_of free_child negb]. cbn [owf] in W.
-    rewrite (kids_deliver _ (fun _ => None)); [reflexivity|]. intros j x Hx. split; [reflexivity|].
-    rewrite Forall_forall in H. apply H; [eapply nth_error_In; eassumption|eapply forallb_nth; eassumption].
-  - cbn [slice recvw slot_open slot_opentype child_of free_child negb]. cbn [owf] in W.
-    rewrite (kids_deliver _ (fun _ => None)); [reflexivity|]. intros j x Hx. split; [reflexivity|].
-    rewrite Forall_forall in H. apply H; [eapply nth_error_In; eassumption|eapply forallb_nth; eassumption].
-  - cbn [slice recvw slot_open slot_opentype child_of free_child negb]. cbn [owf] in W.
-    apply andb_true_iff in W as [W W3]. apply andb_true_iff in W as [W1 W2]. apply Nat.eqb_eq in W1.
-    rewrite map_interleave. rewrite (kids_deliver _ (fun _ => None)).
-    + cbn [build]. destruct (evens_odds_interleave ks vs W1) as [E1 E2]. rewrite E1, E2. reflexivity.
-    + intros j x Hx. split; [reflexivity|]. apply nth_interleave in Hx as [_ Hx]. rewrite Forall_forall in H, H0.
-      destruct (Nat.even j).
-      * apply H; [eapply nth_error_In; eassumption|exact (forallb_nth _ _ _ _ W2 Hx)].
-      * apply H0; [eapply nth_error_In; eassumption|exact (forallb_nth _ _ _ _ W3 Hx)].
-Qed.
-
-Lemma recvw_any_open ot kids : recvw (Some CAny) (WOpen ot kids) = recvw None (WOpen ot kids).
-Proof. destruct ot; reflexivity. Qed.
-
-Definition tokenlike (o : obj) : Prop :=
-  match o with OInt _ | OFloat _ | OBytes _ => True | _ => False end.
 
 Lemma of_tv_deliver t o o' : of_tv t o = RDeliver o' -> t = TOk.
 Proof. destruct t; cbn; intros E; [reflexivity|discriminate|discriminate]. Qed.
@@ -530,12 +500,151 @@ Proof.
   destruct (cp <? 128), (cp <? 2048), (cp <? 65536); lia.
 Qed.
 
+Lemma number_taster_float mb : assoc 132 (number_taster mb) = Some None.
+Proof. destruct mb as [[|p|[p|p|]]|]; reflexivity. Qed.
+
+(* a container child receiving the serializations ws of l, when every slot is open and its element is delivered *)
+Lemma kids_deliver ch (slotc : nat -> option ctr) : forall l ws i,
+  List.length l = List.length ws ->
+  (forall j x w, nth_error l j = Some x -> nth_error ws j = Some w ->
+     child_slot ch (i + j) = Some (slotc (i + j)%nat) /\ recvw (slotc (i + j)%nat) w = RDeliver x) ->
+  kids_with recvw ch ws i = KOk l.
+Proof.
+  induction l as [|x l IH]; intros [|w ws] i L H; try discriminate L; [reflexivity|].
+  cbn [kids_with]. destruct (H O x w eq_refl eq_refl) as [A1 A2]. rewrite Nat.add_0_r in A1, A2. rewrite A1, A2.
+  rewrite (IH ws (S i)); [reflexivity|cbn in L; lia|].
+  intros j y v Hy Hv. specialize (H (S j) y v Hy Hv). rewrite Nat.add_succ_r in H. exact H.
+Qed.
+
+Lemma recvw_any_open ot kids : recvw (Some CAny) (WOpen ot kids) = recvw None (WOpen ot kids).
+Proof. destruct ot; reflexivity. Qed.
+
+Section Sender.
+Variable voc : list (list Z).
+
+Lemma slice_int z : slice voc (OInt z) = WInt (fst (int_token z)) (snd (int_token z)) z.
+Proof. cbn [slice]. destruct (int_token z). reflexivity. Qed.
+
+(* ---- inversion of the serialization relation *)
+Lemma ser_atom_inv o w : atom o = true -> ser voc o w -> w = slice voc o.
+Proof. intros A S. inversion S; subst; try reflexivity; try discriminate A. destruct o; discriminate. Qed.
+
+Lemma ser_list_inv l w : ser voc (OList l) w -> (exists ws, w = WOpen OtList ws /\ Forall2 (ser voc) l ws) \/ w = WRef (OList l).
+Proof. intros S. inversion S; subst; try discriminate; [left; eexists; split; [reflexivity|assumption]|right; reflexivity]. Qed.
+Lemma ser_tuple_inv l w : ser voc (OTuple l) w -> (exists ws, w = WOpen OtTuple ws /\ Forall2 (ser voc) l ws) \/ w = WRef (OTuple l).
+Proof. intros S. inversion S; subst; try discriminate; [left; eexists; split; [reflexivity|assumption]|right; reflexivity]. Qed.
+Lemma ser_set_inv l w : ser voc (OSet l) w -> (exists ws, w = WOpen OtSet ws /\ Forall2 (ser voc) l ws) \/ w = WRef (OSet l).
+Proof. intros S. inversion S; subst; try discriminate; [left; eexists; split; [reflexivity|assumption]|right; reflexivity]. Qed.
+Lemma ser_fset_inv l w : ser voc (OFset l) w -> exists ws, w = WOpen OtFset ws /\ Forall2 (ser voc) l ws.
+Proof. intros S. inversion S; subst; try discriminate. eexists; split; [reflexivity|assumption]. Qed.
+Lemma ser_dict_inv ks vs w : ser voc (ODict ks vs) w ->
+  (exists wks wvs, w = WOpen OtDict (interleave wks wvs) /\ Forall2 (ser voc) ks wks /\ Forall2 (ser voc) vs wvs) \/ w = WRef (ODict ks vs).
+Proof. intros S. inversion S; subst; try discriminate; [left; do 2 eexists; split; [reflexivity|split; assumption]|right; reflexivity]. Qed.
+
+Lemma Forall2_map_ser l : Forall (fun o => owf o = true -> ser voc o (slice voc o)) l -> forallb owf l = true ->
+  Forall2 (ser voc) l (map (slice voc) l).
+Proof.
+  induction 1 as [|x l Hx _ IH]; intros W; [constructor|]. cbn [forallb] in W. apply andb_true_iff in W as [W1 W2].
+  cbn [map]. constructor; auto.
+Qed.
+
+(* the tree serialization (no sharing) is one of the serializations *)
+Lemma ser_slice : forall o, owf o = true -> ser voc o (slice voc o).
+Proof.
+  induction o using obj_ind'; intros W; try (apply ser_atom; reflexivity); try discriminate W; cbn [owf] in W; cbn [slice].
+  - apply ser_list. apply Forall2_map_ser; assumption.
+  - apply ser_tuple. apply Forall2_map_ser; assumption.
+  - apply ser_set. apply Forall2_map_ser; assumption.
+  - apply ser_fset. apply Forall2_map_ser; assumption.
+  - apply andb_true_iff in W as [W W3]. apply andb_true_iff in W as [W1 W2].
+    apply ser_dict; apply Forall2_map_ser; assumption.
+Qed.
+
+Ltac atomw S := match type of S with ser _ ?o ?w => rewrite (ser_atom_inv o w eq_refl S) end.
+
+(* ---- no constraint: everything is delivered *)
+Lemma dict_kids (R : obj -> wobj -> Prop) ks vs wks wvs j x w :
+  Forall2 R ks wks -> Forall2 R vs wvs ->
+  nth_error (interleave ks vs) j = Some x -> nth_error (interleave wks wvs) j = Some w ->
+  (Nat.div2 j < List.length ks)%nat /\ R x w /\
+  (if Nat.even j then nth_error ks (Nat.div2 j) = Some x else nth_error vs (Nat.div2 j) = Some x).
+Proof.
+  intros F1 F2 Hx Hw. apply nth_interleave in Hx as [L Hx]. apply nth_interleave in Hw as [_ Hw].
+  split; [assumption|]. destruct (Nat.even j); (split; [|assumption]).
+  - exact (Forall2_nth R _ _ _ _ _ F1 Hx Hw).
+  - exact (Forall2_nth R _ _ _ _ _ F2 Hx Hw).
+Qed.
+
+Lemma ser_free : forall o w, owf o = true -> ser voc o w -> recvw None w = RDeliver o.
+Proof.
+  induction o using obj_ind'; intros w W S; try discriminate W.
+  - atomw S; rewrite slice_int. reflexivity.
+  - atomw S. reflexivity.
+  - atomw S. cbn [slice]. unfold str_token. destruct (vocab_index voc bs); reflexivity.
+  - atomw S. cbn [slice]. unfold str_token. destruct (vocab_index voc cps); reflexivity.
+  - atomw S. destruct b; reflexivity.
+  - atomw S. reflexivity.
+  - cbn [owf] in W. destruct (ser_list_inv _ _ S) as [(ws & -> & F)| ->]; [|reflexivity].
+    cbn [recvw slot_open slot_opentype child_of free_child negb].
+    rewrite (kids_deliver _ (fun _ => None) l ws); [reflexivity|eapply Forall2_length; eassumption|].
+    intros j x w Hx Hw. split; [reflexivity|]. rewrite Forall_forall in H.
+    apply H; [eapply nth_error_In; eassumption|eapply forallb_nth; eassumption|eapply Forall2_nth; eassumption].
+  - cbn [owf] in W. destruct (ser_tuple_inv _ _ S) as [(ws & -> & F)| ->]; [|reflexivity].
+    cbn [recvw slot_open slot_opentype child_of free_child negb].
+    rewrite (kids_deliver _ (fun _ => None) l ws); [reflexivity|eapply Forall2_length; eassumption|].
+    intros j x w Hx Hw. split; [reflexivity|]. rewrite Forall_forall in H.
+    apply H; [eapply nth_error_In; eassumption|eapply forallb_nth; eassumption|eapply Forall2_nth; eassumption].
+  - cbn [owf] in W. destruct (ser_set_inv _ _ S) as [(ws & -> & F)| ->]; [|reflexivity].
+    cbn [recvw slot_open slot_opentype child_of free_child negb].
+    rewrite (kids_deliver _ (fun _ => None) l ws); [reflexivity|eapply Forall2_length; eassumption|].
+    intros j x w Hx Hw. split; [reflexivity|]. rewrite Forall_forall in H.
+    apply H; [eapply nth_error_In; eassumption|eapply forallb_nth; eassumption|eapply Forall2_nth; eassumption].
+  - cbn [owf] in W. destruct (ser_fset_inv _ _ S) as (ws & -> & F).
+    cbn [recvw slot_open slot_opentype child_of free_child negb].
+    rewrite (kids_deliver _ (fun _ => None) l ws); [reflexivity|eapply Forall2_length; eassumption|].
+    intros j x w Hx Hw. split; [reflexivity|]. rewrite Forall_forall in H.
+    apply H; [eapply nth_error_In; eassumption|eapply forallb_nth; eassumption|eapply Forall2_nth; eassumption].
+  - cbn [owf] in W. apply andb_true_iff in W as [W W3]. apply andb_true_iff in W as [W1 W2]. apply Nat.eqb_eq in W1.
+    destruct (ser_dict_inv _ _ _ S) as [(wks & wvs & -> & F1 & F2)| ->]; [|reflexivity].
+    cbn [recvw slot_open slot_opentype child_of free_child negb].
+    rewrite (kids_deliver _ (fun _ => None) (interleave ks vs) (interleave wks wvs)).
+    + cbn [build]. destruct (evens_odds_interleave ks vs W1) as [E1 E2]. rewrite E1, E2. reflexivity.
+    + apply interleave_length; eapply Forall2_length; eassumption.
+    + intros j x w Hx Hw. split; [reflexivity|].
+      destruct (dict_kids _ _ _ _ _ _ _ _ F1 F2 Hx Hw) as (_ & Sx & Hn). rewrite Forall_forall in H, H0.
+      destruct (Nat.even j).
+      * apply H; [eapply nth_error_In; eassumption|exact (forallb_nth _ _ _ _ W2 Hn)|assumption].
+      * apply H0; [eapply nth_error_In; eassumption|exact (forallb_nth _ _ _ _ W3 Hn)|assumption].
+Qed.
+
+(* ---- a repeated container travelling as a reference: accepted wherever the object itself is accepted *)
+Lemma open_taste : forall c o, checkObject c o = true -> refable o = true -> taste c 136 0 = TOk.
+Proof.
+  induction c using ctr_ind'; intros o CO R; try (destruct o; try discriminate; reflexivity).
+  cbn [checkObject] in CO. apply existsb_exists in CO as (c1 & Hin & CO). rewrite Forall_forall in H.
+  cbn [taste]. rewrite (existsb_intro _ cs c1 Hin); [reflexivity|]. rewrite (H c1 Hin o CO R). reflexivity.
+Qed.
+
+Theorem ref_ok : forall c o, checkObject c o = true -> refable o = true -> recvw (Some c) (WRef o) = RDeliver o.
+Proof.
+  intros c o CO R. cbn [recvw slot_open]. change tok_OPEN with 136. rewrite (open_taste c o CO R).
+  rewrite CO. rewrite orb_true_r. reflexivity.
+Qed.
+
+Lemma str_taste_everything size bs oc : exists tb sz, recvw oc (str_token voc size bs) = slot_token oc tb sz (OBytes bs) /\
+  forall strictflag, checkToken_base everythingTaster strictflag tb sz = TOk.
+Proof.
+  unfold str_token. destruct (vocab_index voc bs) as [i|].
+  - exists 135, i. split; [reflexivity|intros; reflexivity].
+  - exists 130, size. split; [reflexivity|intros; reflexivity].
+Qed.
+
 (* everything the guard's choice/optional/any clauses need about a value that travels as one token or as `none` *)
 Lemma everything_token o strictflag :
   is_token_or_none o = true -> any_int_ok o = true ->
   match o with
   | ONone => True
-  | _ => exists tb size, (forall oc, recvw oc (slice o) = slot_token oc tb size o) /\
+  | _ => exists tb size, (forall oc, recvw oc (slice voc o) = slot_token oc tb size o) /\
                          checkToken_base everythingTaster strictflag tb size = TOk
   end.
 Proof.
@@ -545,159 +654,192 @@ Proof.
     unfold checkToken_base in *. destruct (assoc tb everythingTaster) as [[l|]|]; try discriminate; try reflexivity.
     destruct ((negb token_limit_zero_unlimited || negb (l =? 0)) && scmp_eval token_size_cmp size l); [discriminate|reflexivity].
   - exists 132, 0. split; [intros oc; reflexivity|reflexivity].
-  - exists 130, (zlen bs). split; [intros oc; reflexivity|reflexivity].
+  - cbn [slice]. unfold str_token. destruct (vocab_index voc bs) as [i|].
+    + exists 135, i. split; [intros oc; reflexivity|reflexivity].
+    + exists 130, (zlen bs). split; [intros oc; reflexivity|reflexivity].
 Qed.
 
-Lemma number_taster_float mb : assoc 132 (number_taster mb) = Some None.
-Proof. destruct mb as [[|p|[p|p|]]|]; reflexivity. Qed.
-
-Theorem c12_main : forall c o,
-  wf c = true -> owf o = true -> c12_guard c o = true -> checkObject c o = true ->
-  recvw (Some c) (slice o) = RDeliver o.
+(* C12: for EVERY serialization w of o (the tree one, or any one in which repeated containers are references, with the
+   connection's vocabulary voc abbreviating byte strings), what the sender's check accepts the receiver delivers *)
+Theorem c12_ser : forall c o w,
+  wf c = true -> owf o = true -> c12_guard c o = true -> checkObject c o = true -> ser voc o w ->
+  recvw (Some c) w = RDeliver o.
 Proof.
-  induction c using ctr_ind'; intros o W OW G CO.
+  induction c using ctr_ind'; intros o w W OW G CO S.
   - (* Any *)
-    destruct o.
-    + cbn [c12_guard] in G. rewrite slice_int. cbn [recvw slot_token taste]. apply of_tv_ok.
+    destruct o; try discriminate OW.
+    + atomw S. cbn [c12_guard] in G. rewrite slice_int. cbn [recvw slot_token taste]. apply of_tv_ok.
       cbn [any_int_ok] in G. destruct (int_token z) as [tb size]. cbn [fst snd].
       change (taster_of CAny) with everythingTaster. change (strict_of CAny) with false.
       destruct (checkToken_base everythingTaster false tb size); [reflexivity|discriminate|discriminate].
-    + reflexivity.
-    + reflexivity.
-    + exact (eq_trans (recvw_any_open _ _) (recvw_free (OText cps) OW)).
-    + exact (eq_trans (recvw_any_open _ _) (recvw_free (OBool b) OW)).
-    + reflexivity.
-    + exact (eq_trans (recvw_any_open _ _) (recvw_free (OList l) OW)).
-    + exact (eq_trans (recvw_any_open _ _) (recvw_free (OTuple l) OW)).
-    + exact (eq_trans (recvw_any_open _ _) (recvw_free (OSet l) OW)).
-    + exact (eq_trans (recvw_any_open _ _) (recvw_free (OFset l) OW)).
-    + exact (eq_trans (recvw_any_open _ _) (recvw_free (ODict ks vs) OW)).
-    + discriminate OW.
+    + atomw S. reflexivity.
+    + atomw S. cbn [slice]. unfold str_token. destruct (vocab_index voc bs); reflexivity.
+    + atomw S. exact (eq_trans (recvw_any_open _ _) (ser_free (OText cps) _ OW (ser_atom voc (OText cps) eq_refl))).
+    + atomw S. exact (eq_trans (recvw_any_open _ _) (ser_free (OBool b) _ OW (ser_atom voc (OBool b) eq_refl))).
+    + atomw S. reflexivity.
+    + destruct (ser_list_inv _ _ S) as [(ws & E & F)| ->]; [subst w|apply ref_ok; reflexivity].
+      exact (eq_trans (recvw_any_open _ _) (ser_free _ _ OW S)).
+    + destruct (ser_tuple_inv _ _ S) as [(ws & E & F)| ->]; [subst w|apply ref_ok; reflexivity].
+      exact (eq_trans (recvw_any_open _ _) (ser_free _ _ OW S)).
+    + destruct (ser_set_inv _ _ S) as [(ws & E & F)| ->]; [subst w|apply ref_ok; reflexivity].
+      exact (eq_trans (recvw_any_open _ _) (ser_free _ _ OW S)).
+    + destruct (ser_fset_inv _ _ S) as (ws & E & F). subst w.
+      exact (eq_trans (recvw_any_open _ _) (ser_free _ _ OW S)).
+    + destruct (ser_dict_inv _ _ _ S) as [(wks & wvs & E & F1 & F2)| ->]; [subst w|apply ref_ok; reflexivity].
+      exact (eq_trans (recvw_any_open _ _) (ser_free _ _ OW S)).
   - (* Int *)
-    destruct o; try discriminate. cbn [checkObject] in CO. cbn [wf] in W. rewrite slice_int. cbn [recvw slot_token taste].
+    destruct o; try discriminate. atomw S.
+    cbn [checkObject] in CO. cbn [wf] in W. rewrite slice_int. cbn [recvw slot_token taste].
     apply of_tv_ok. change (taster_of (CInt mb)) with (int_taster mb). rewrite <- (app_nil_r (int_taster mb)).
     apply int_taste; assumption.
   - (* Number *)
-    destruct o; try discriminate;
+    destruct o; try discriminate; atomw S;
       [|cbn [slice recvw slot_token taste]; unfold checkToken_base; change (taster_of (CNumber mb)) with (number_taster mb);
         change tok_FLOAT with 132; rewrite number_taster_float; reflexivity].
     cbn [checkObject] in CO. cbn [wf] in W. rewrite slice_int.
     cbn [recvw slot_token taste]. apply of_tv_ok. change (taster_of (CNumber mb)) with (int_taster mb ++ [(132, None)]).
     apply int_taste; [|assumption]. destruct mb as [m|]; [|reflexivity]. unfold mb_wf in *. cbn [andb orb] in *. rewrite W. apply orb_true_r.
-  - (* Bytes *)
-    destruct o; try discriminate. cbn [checkObject] in CO. apply (len_ok_spec mx mn) in CO as [H1 H2].
-    cbn [slice recvw slot_token taste]. apply of_tv_ok.
-    unfold checkToken_base. cbn [taster_of bytes_taster assoc]. change (tok_STRING =? 130) with true. cbv iota.
-    destruct mx as [l|]; [|reflexivity]. rewrite limit_ok; [reflexivity|]. cbn in H1. change token_size_cmp with SGt. cbn [scmp_eval].
-    destruct (Z.gtb_spec (zlen bs) l); [lia|reflexivity].
+  - (* Bytes: a STRING of its length, or -- when it is a word of the connection's vocabulary -- a VOCAB token carrying the
+       word's index, which must not be compared with maxLength *)
+    destruct o; try discriminate. atomw S.
+    cbn [checkObject] in CO. apply (len_ok_spec mx mn) in CO as [H1 H2].
+    cbn [slice]. unfold str_token. destruct (vocab_index voc bs) as [i|]; cbn [recvw slot_token taste]; apply of_tv_ok.
+    + unfold checkToken_base. cbn [taster_of bytes_taster assoc]. change (tok_VOCAB =? 130) with false.
+      change (tok_VOCAB =? 135) with true. cbv iota. reflexivity.
+    + unfold checkToken_base. cbn [taster_of bytes_taster assoc]. change (tok_STRING =? 130) with true. cbv iota.
+      destruct mx as [l|]; [|reflexivity]. rewrite limit_ok; [reflexivity|]. cbn in H1. change token_size_cmp with SGt. cbn [scmp_eval].
+      destruct (Z.gtb_spec (zlen bs) l); [lia|reflexivity].
   - (* Text *)
-    destruct o; try discriminate. cbn [checkObject] in CO. apply (len_ok_spec mx mn) in CO as [H1 H2].
+    destruct o; try discriminate. atomw S.
+    cbn [checkObject] in CO. apply (len_ok_spec mx mn) in CO as [H1 H2].
     cbn [slice recvw]. change (slot_open (Some (CText mx mn))) with TOk. change (slot_opentype (Some (CText mx mn)) OtUnicode) with true.
-    cbn [negb child_of recv_text]. 
-    assert (E : text_body_too_long mx false (utf8size cps) = false).
-    { unfold text_body_too_long. destruct mx as [m|]; [|apply andb_false_r]. cbn in H1.
-      change unicode_size_cmp with SGt. change unicode_size_factor with 6. cbn [scmp_eval].
-      pose proof (utf8size_bound cps). destruct (Z.gtb_spec (utf8size cps) (6 * m)); [lia|apply andb_false_r]. }
-    rewrite E. reflexivity.
+    cbn [negb child_of]. unfold str_token. destruct (vocab_index voc cps) as [i|]; cbn [recv_text].
+    + unfold text_body_too_long. cbn [negb]. rewrite andb_false_r. reflexivity.
+    + assert (E : text_body_too_long mx false (utf8size cps) = false).
+      { unfold text_body_too_long. destruct mx as [m|]; [|apply andb_false_r]. cbn in H1.
+        change unicode_size_cmp with SGt. change unicode_size_factor with 6. cbn [scmp_eval].
+        pose proof (utf8size_bound cps). destruct (Z.gtb_spec (utf8size cps) (6 * m)); [lia|apply andb_false_r]. }
+      rewrite E. reflexivity.
   - (* Bool *)
-    destruct o; try discriminate. cbn [checkObject] in CO. cbn [slice recvw].
+    destruct o; try discriminate. atomw S. cbn [checkObject] in CO. cbn [slice recvw].
     change (slot_open (Some (CBool v))) with TOk. change (slot_opentype (Some (CBool v)) OtBool) with true.
     cbn [negb child_of recv_bool]. change (129 =? tok_INT) with true. cbn [negb].
     destruct b; cbn [Z.eqb negb]; rewrite CO; reflexivity.
   - (* None *)
-    destruct o; try discriminate. reflexivity.
+    destruct o; try discriminate. atomw S. reflexivity.
   - (* List *)
-    destruct o; try discriminate. cbn [checkObject] in CO. apply andb_true_iff in CO as [H1 H2].
+    destruct o; try discriminate.
+    destruct (ser_list_inv _ _ S) as [(ws & -> & F)| ->]; [|apply ref_ok; [assumption|reflexivity]].
+    cbn [checkObject] in CO. apply andb_true_iff in CO as [H1 H2].
     apply (len_ok_spec mx mn) in H1 as [H1 _]. cbn [wf] in W. cbn [owf] in OW. cbn [c12_guard] in G.
-    cbn [slice recvw]. change (slot_open (Some (CList c mx mn))) with TOk.
+    cbn [recvw]. change (slot_open (Some (CList c mx mn))) with TOk.
     change (slot_opentype (Some (CList c mx mn)) OtList) with true. cbn [negb child_of].
-    rewrite (kids_deliver _ (fun _ => Some c)); [reflexivity|]. intros j x Hx. cbn [Nat.add]. split.
+    rewrite (kids_deliver _ (fun _ => Some c) l ws); [reflexivity|eapply Forall2_length; eassumption|].
+    intros j x w Hx Hw. cbn [Nat.add]. split.
     + cbn [child_slot]. change list_full_cmp with SGe. rewrite (over_ge_false mx _ (zlen l) H1); [reflexivity|].
       apply nth_error_lt in Hx. unfold zlen. lia.
-    + apply IHc; try assumption; eapply forallb_nth; eassumption.
+    + apply IHc; [assumption|exact (forallb_nth _ _ _ _ OW Hx)|exact (forallb_nth _ _ _ _ G Hx)|exact (forallb_nth _ _ _ _ H2 Hx)|
+                  eapply Forall2_nth; eassumption].
   - (* Tuple *)
-    destruct o; try discriminate. cbn [checkObject] in CO. apply andb_true_iff in CO as [H1 H2].
+    destruct o; try discriminate.
+    destruct (ser_tuple_inv _ _ S) as [(ws & -> & F)| ->]; [|apply ref_ok; [assumption|reflexivity]].
+    cbn [checkObject] in CO. apply andb_true_iff in CO as [H1 H2].
     cbn [wf] in W. cbn [owf] in OW. cbn [c12_guard] in G. change tuple_len_cmp with SNe in H1. cbn [scmp_eval] in H1.
     rewrite negb_involutive in H1. apply Z.eqb_eq in H1.
-    cbn [slice recvw]. change (slot_open (Some (CTuple cs))) with TOk.
+    cbn [recvw]. change (slot_open (Some (CTuple cs))) with TOk.
     change (slot_opentype (Some (CTuple cs)) OtTuple) with true. cbn [negb child_of].
-    rewrite (kids_deliver _ (fun j => nth_error cs j)); [reflexivity|]. intros j x Hx. cbn [Nat.add].
+    rewrite (kids_deliver _ (fun j => nth_error cs j) l ws); [reflexivity|eapply Forall2_length; eassumption|].
+    intros j x w Hx Hw. cbn [Nat.add].
     pose proof (nth_error_lt _ _ _ Hx) as Hj. assert (Hj' : (j < List.length cs)%nat) by (unfold zlen in H1; lia).
     destruct (nth_error cs j) as [cj|] eqn:Ej; [|apply nth_error_None in Ej; lia]. split.
     + cbn [child_slot]. change tuple_full_cmp with SGe. cbn [scmp_eval]. rewrite Ej.
       destruct (Z.geb_spec (Z.of_nat j) (zlen cs)); [unfold zlen in *; lia|reflexivity].
     + rewrite Forall_forall in H. apply H.
       * eapply nth_error_In; eassumption.
-      * eapply forallb_nth; eassumption.
-      * eapply forallb_nth; eassumption.
+      * exact (forallb_nth _ _ _ _ W Ej).
+      * exact (forallb_nth _ _ _ _ OW Hx).
       * eapply all2_nth; eassumption.
       * eapply all2_nth; eassumption.
+      * eapply Forall2_nth; eassumption.
   - (* Dict *)
-    destruct o; try discriminate. cbn [checkObject] in CO. apply andb_true_iff in CO as [CO H3]. apply andb_true_iff in CO as [H1 H2].
+    destruct o; try discriminate.
+    destruct (ser_dict_inv _ _ _ S) as [(wks & wvs & -> & F1 & F2)| ->]; [|apply ref_ok; [assumption|reflexivity]].
+    cbn [checkObject] in CO. apply andb_true_iff in CO as [CO H3]. apply andb_true_iff in CO as [H1 H2].
     apply negb_true_iff in H1. apply (over_max_gt mk) in H1.
     cbn [wf] in W. apply andb_true_iff in W as [W1 W2]. cbn [owf] in OW. apply andb_true_iff in OW as [OW OW3].
     apply andb_true_iff in OW as [OW1 OW2]. apply Nat.eqb_eq in OW1.
     cbn [c12_guard] in G. apply andb_true_iff in G as [G1 G2].
-    cbn [slice recvw]. change (slot_open (Some (CDict c1 c2 mk))) with TOk.
+    cbn [recvw]. change (slot_open (Some (CDict c1 c2 mk))) with TOk.
     change (slot_opentype (Some (CDict c1 c2 mk)) OtDict) with true. cbn [negb child_of].
-    rewrite map_interleave.
-    rewrite (kids_deliver _ (fun j => Some (if Nat.even j then c1 else c2))).
+    rewrite (kids_deliver _ (fun j => Some (if Nat.even j then c1 else c2)) (interleave ks vs) (interleave wks wvs)).
     + cbn [build]. destruct (evens_odds_interleave ks vs OW1) as [E1 E2]. rewrite E1, E2. reflexivity.
-    + intros j x Hx. cbn [Nat.add]. apply nth_interleave in Hx as [Hlt Hx]. split.
+    + apply interleave_length; eapply Forall2_length; eassumption.
+    + intros j x w Hx Hw. cbn [Nat.add]. destruct (dict_kids _ _ _ _ _ _ _ _ F1 F2 Hx Hw) as (Hlt & Sx & Hn). split.
       * cbn [child_slot]. change dict_full_cmp with SGe. rewrite (over_ge_false mk _ (zlen ks) H1); [reflexivity|].
         unfold zlen. lia.
       * destruct (Nat.even j).
-        -- apply IHc1; [exact W1|exact (forallb_nth _ _ _ _ OW2 Hx)|exact (forallb_nth _ _ _ _ G1 Hx)|exact (forallb_nth _ _ _ _ H2 Hx)].
-        -- apply IHc2; [exact W2|exact (forallb_nth _ _ _ _ OW3 Hx)|exact (forallb_nth _ _ _ _ G2 Hx)|exact (forallb_nth _ _ _ _ H3 Hx)].
+        -- apply IHc1; [exact W1|exact (forallb_nth _ _ _ _ OW2 Hn)|exact (forallb_nth _ _ _ _ G1 Hn)|exact (forallb_nth _ _ _ _ H2 Hn)|exact Sx].
+        -- apply IHc2; [exact W2|exact (forallb_nth _ _ _ _ OW3 Hn)|exact (forallb_nth _ _ _ _ G2 Hn)|exact (forallb_nth _ _ _ _ H3 Hn)|exact Sx].
   - (* Set *)
-    cbn [wf] in W.
-    destruct o; try discriminate; cbn [checkObject] in CO; apply andb_true_iff in CO as [CO H3]; apply andb_true_iff in CO as [H1 H2];
-      apply negb_true_iff in H2; apply (over_max_gt mx) in H2; cbn [owf] in OW; cbn [c12_guard] in G; cbn [slice recvw].
-    + change (slot_open (Some (CSet c mx mut))) with TOk. change (slot_opentype (Some (CSet c mx mut)) OtSet) with true.
-      cbn [negb child_of]. rewrite (kids_deliver _ (fun _ => Some c)); [reflexivity|]. intros j x Hx. cbn [Nat.add]. split.
+    cbn [wf] in W. destruct o; try discriminate.
+    + destruct (ser_set_inv _ _ S) as [(ws & -> & F)| ->]; [|apply ref_ok; [assumption|reflexivity]].
+      cbn [checkObject] in CO; apply andb_true_iff in CO as [CO H3]; apply andb_true_iff in CO as [H1 H2];
+        apply negb_true_iff in H2; apply (over_max_gt mx) in H2; cbn [owf] in OW; cbn [c12_guard] in G; cbn [recvw].
+      change (slot_open (Some (CSet c mx mut))) with TOk. change (slot_opentype (Some (CSet c mx mut)) OtSet) with true.
+      cbn [negb child_of]. rewrite (kids_deliver _ (fun _ => Some c) l ws); [reflexivity|eapply Forall2_length; eassumption|].
+      intros j x w Hx Hw. cbn [Nat.add]. split.
       * cbn [child_slot]. change set_full_cmp with SGe. rewrite (over_ge_false mx _ (zlen l) H2); [reflexivity|].
         apply nth_error_lt in Hx. unfold zlen. lia.
-      * apply IHc; try assumption; eapply forallb_nth; eassumption.
-    + change (slot_open (Some (CSet c mx mut))) with TOk. change (slot_opentype (Some (CSet c mx mut)) OtFset) with true.
-      cbn [negb child_of]. rewrite (kids_deliver _ (fun _ => Some c)); [reflexivity|]. intros j x Hx. cbn [Nat.add]. split.
+      * apply IHc; [assumption|exact (forallb_nth _ _ _ _ OW Hx)|exact (forallb_nth _ _ _ _ G Hx)|exact (forallb_nth _ _ _ _ H3 Hx)|
+                    eapply Forall2_nth; eassumption].
+    + destruct (ser_fset_inv _ _ S) as (ws & -> & F).
+      cbn [checkObject] in CO; apply andb_true_iff in CO as [CO H3]; apply andb_true_iff in CO as [H1 H2];
+        apply negb_true_iff in H2; apply (over_max_gt mx) in H2; cbn [owf] in OW; cbn [c12_guard] in G; cbn [recvw].
+      change (slot_open (Some (CSet c mx mut))) with TOk. change (slot_opentype (Some (CSet c mx mut)) OtFset) with true.
+      cbn [negb child_of]. rewrite (kids_deliver _ (fun _ => Some c) l ws); [reflexivity|eapply Forall2_length; eassumption|].
+      intros j x w Hx Hw. cbn [Nat.add]. split.
       * cbn [child_slot]. change fset_full_cmp with SGe. rewrite (over_ge_false mx _ (zlen l) H2); [reflexivity|].
         apply nth_error_lt in Hx. unfold zlen. lia.
-      * apply IHc; try assumption; eapply forallb_nth; eassumption.
+      * apply IHc; [assumption|exact (forallb_nth _ _ _ _ OW Hx)|exact (forallb_nth _ _ _ _ G Hx)|exact (forallb_nth _ _ _ _ H3 Hx)|
+                    eapply Forall2_nth; eassumption].
   - (* Choice *)
     cbn [c12_guard] in G. apply andb_true_iff in G as [T G]. apply existsb_exists in G as (c1 & Hin & G).
     apply andb_true_iff in G as [Hc1 G1]. cbn [wf] in W. rewrite Forall_forall in H.
-    assert (D : recvw (Some c1) (slice o) = RDeliver o).
-    { apply H; try assumption. rewrite forallb_forall in W. apply W. assumption. }
+    assert (A : atom o = true) by (destruct o; try discriminate T; reflexivity).
+    rewrite (ser_atom_inv _ _ A S) in *.
+    assert (D : recvw (Some c1) (slice voc o) = RDeliver o).
+    { apply (H c1 Hin o (slice voc o)); try assumption; [rewrite forallb_forall in W; apply W; assumption|apply ser_atom; exact A]. }
     destruct o; try discriminate.
     + rewrite slice_int in *. cbn [recvw slot_token] in *. apply of_tv_deliver in D. apply of_tv_ok.
       cbn [taste]. rewrite (existsb_intro _ cs c1 Hin); [reflexivity|]. rewrite D. reflexivity.
     + cbn [slice recvw slot_token] in *. apply of_tv_deliver in D. apply of_tv_ok.
       cbn [taste]. rewrite (existsb_intro _ cs c1 Hin); [reflexivity|]. rewrite D. reflexivity.
-    + cbn [slice recvw slot_token] in *. apply of_tv_deliver in D. apply of_tv_ok.
-      cbn [taste]. rewrite (existsb_intro _ cs c1 Hin); [reflexivity|]. rewrite D. reflexivity.
-    + cbn [slice recvw] in *. 
+    + cbn [slice] in *. unfold str_token in *. destruct (vocab_index voc bs); cbn [recvw slot_token] in *;
+        apply of_tv_deliver in D; apply of_tv_ok; cbn [taste]; (rewrite (existsb_intro _ cs c1 Hin); [reflexivity|]); rewrite D; reflexivity.
+    + cbn [slice recvw] in *.
       assert (O1 : slot_open (Some c1) = TOk).
       { destruct (slot_open (Some c1)); [reflexivity|discriminate|discriminate]. }
       assert (O2 : slot_open (Some (CChoice cs)) = TOk).
       { cbn [slot_open taste]. rewrite (existsb_intro _ cs c1 Hin); [reflexivity|]. cbn [slot_open] in O1. rewrite O1. reflexivity. }
       rewrite O2. reflexivity.
   - (* Optional below the argument level *)
-    cbn [c12_guard] in G. apply andb_true_iff in G as [T A].
-    pose proof (everything_token o false T A) as E. destruct o; try discriminate; try reflexivity.
+    cbn [c12_guard] in G. apply andb_true_iff in G as [T A0].
+    assert (A : atom o = true) by (destruct o; try discriminate T; reflexivity).
+    rewrite (ser_atom_inv _ _ A S).
+    pose proof (everything_token o false T A0) as E. destruct o; try discriminate; try reflexivity.
     all: destruct E as (tb & size & E1 & E2); rewrite E1; cbn [slot_token taste]; apply of_tv_ok; exact E2.
 Qed.
 
-Example c12_main_nonvacuous :
-  let c := CTuple [CInt (Some (-1)); CInt (Some 4); CList (CText (Some 2) 0) (Some 2) 1; CDict (CBytes (Some 1) 0) (CSet (CBool None) (Some 1) None) (Some 1);
-                   CChoice [CInt (Some 1024); CNone]] in
-  let o := OTuple [OInt (- 2 ^ 31); OInt (2 ^ 32 - 1); OList [OText [8364; 8364]; OText []]; ODict [OBytes [7]] [OFset [OBool true]]; ONone] in
-  wf c = true /\ owf o = true /\ c12_guard c o = true /\ checkObject c o = true /\ recvw (Some c) (slice o) = RDeliver o.
-Proof. vm_compute. auto. Qed.
+(* the tree serialization (what slice produces) as a special case *)
+Corollary c12_main : forall c o,
+  wf c = true -> owf o = true -> c12_guard c o = true -> checkObject c o = true ->
+  recvw (Some c) (slice voc o) = RDeliver o.
+Proof. intros. apply c12_ser; try assumption. apply ser_slice. assumption. Qed.
 
 (* the same at the level of a whole call of a one-argument method: what callRemote's check lets through is delivered *)
 Theorem c12_call1 : forall c o,
   wf c = true -> owf o = true -> c12_guard c o = true ->
-  forall p k, send_call (ms1 c) [o] [] = Some (p, k) -> recv_call (ms1 c) p k = CInvoke [o] [].
+  forall p k, send_call voc (ms1 c) [o] [] = Some (p, k) -> recv_call (ms1 c) p k = CInvoke [o] [].
 Proof.
   intros c o W OW G p k S. unfold send_call in S.
   destruct (checkAllArgs (ms1 c) [o] []) as [[]|t] eqn:E; [|discriminate]. inversion S; subst p k. clear S.
@@ -708,6 +850,30 @@ Proof.
   change (Z.of_nat 0 >=? zlen [{| a_name := 1; a_ctr := c; a_opt := false |}]) with false. cbv iota.
   rewrite (c12_main c o W OW G CO). cbn [recv_pos recv_kw List.length firstn]. unfold doCall. change doCall_shape with CheckedBeforeCall.
   cbv iota. change {| ms_args := [{| a_name := 1; a_ctr := c; a_opt := false |}]; ms_resp := None |} with (ms1 c). rewrite E. reflexivity.
+Qed.
+
+End Sender.
+
+Definition voc1 := vocab_table 1.
+
+Example c12_main_nonvacuous :
+  let c := CTuple [CInt (Some (-1)); CInt (Some 4); CList (CText (Some 2) 0) (Some 2) 1; CDict (CBytes (Some 1) 0) (CSet (CBool None) (Some 1) None) (Some 1);
+                   CChoice [CInt (Some 1024); CNone]; CBytes (Some 10) 0] in
+  let o := OTuple [OInt (- 2 ^ 31); OInt (2 ^ 32 - 1); OList [OText [8364; 8364]; OText []]; ODict [OBytes [7]] [OFset [OBool true]]; ONone;
+                   OBytes [99; 97; 108; 108]] in
+  wf c = true /\ owf o = true /\ c12_guard c o = true /\ checkObject c o = true /\ recvw (Some c) (slice voc1 o) = RDeliver o /\
+  slice voc1 (OBytes [99; 97; 108; 108]) = WStr true 11 [99; 97; 108; 108].
+Proof. vm_compute. repeat split; reflexivity. Qed.
+
+(* a call m(s, s) with ONE set object: the second occurrence is a reference, and meets SetOf(mutable=True)'s checkOpentype *)
+Example c12_ser_shared_nonvacuous :
+  let c := CSet (CInt (Some 1024)) (Some 2) (Some true) in
+  let s := OSet [OInt 1; OInt 2] in
+  ser voc1 (OTuple [s; s]) (WOpen OtTuple [slice voc1 s; WRef s]) /\
+  recvw (Some (CTuple [c; c])) (WOpen OtTuple [slice voc1 s; WRef s]) = RDeliver (OTuple [s; s]).
+Proof.
+  split; [|vm_compute; reflexivity].
+  apply ser_tuple. constructor; [apply ser_slice; reflexivity|]. constructor; [apply ser_ref; reflexivity|constructor].
 Qed.
 
 (* ------------------------------------------------------------------ C02, result side: what still holds (partial) *)
@@ -798,7 +964,7 @@ Qed.
 
 Example C02_result_partial_nonvacuous :
   let c := CList (CSet (CInt None) None None) None 0 in
-  let w := slice (OList [OFset [OInt 1; OInt (2 ^ 70)]; OSet []]) in
+  let w := slice [] (OList [OFset [OInt 1; OInt (2 ^ 70)]; OSet []]) in
   complete c = true /\ wwf w = true /\ recv_answer (Some c) w = Callback (OList [OFset [OInt 1; OInt (2 ^ 70)]; OSet []]).
 Proof. vm_compute. auto. Qed.
 
